@@ -359,7 +359,11 @@ int main (int ac,
 		case QS_LP_OPTIMAL:
 			EGioPrintf (out_f, "status = OPTIMAL\n");
 			rval = QSexact_print_sol (p_mpq, out_f);
-			CHECKRVALG(rval,CLEANUP);
+			if (rval)
+			{
+				EGioClose (out_f);
+				CHECKRVALG(rval,CLEANUP);
+			}
 			break;
 		case QS_LP_INFEASIBLE:
 			EGioPrintf (out_f, "status = INFEASIBLE\n");
